@@ -126,6 +126,25 @@ func rootOfV(v ssa.Value, depth int, visiting map[ssa.Value]bool) int {
 		return r
 	case *ssa.Const:
 		return -2 // nil
+	case *ssa.Call:
+		if callee, ok := x.Call.Value.(*ssa.Function); ok && callee.Pkg != nil {
+			p := callee.Pkg.Pkg.Path()
+			if p == "math/big" || p == "github.com/holiman/uint256" {
+				sig := callee.Signature
+				if sig.Recv() != nil && sig.Results().Len() >= 1 && types.Identical(sig.Results().At(0).Type(), sig.Recv().Type()) && len(x.Call.Args) > 0 {
+					// z.Op(...) returns z
+					return rootOf(x.Call.Args[0], depth+1)
+				}
+				switch callee.Name() {
+				case "NewInt", "ToBig", "Clone", "FromBig", "MustFromBig", "NewFloat":
+					return -2
+				}
+			}
+		}
+	case *ssa.Extract:
+		if c, ok := x.Tuple.(*ssa.Call); ok && x.Index == 0 {
+			return rootOf(c, depth+1)
+		}
 	}
 	return -1
 }
@@ -369,7 +388,7 @@ func (e *Engine) directSummary(fn *ssa.Function) *fnSummary {
 	if len(fn.Blocks) == 0 {
 		if m := lookupModel(fn); m != nil {
 			for _, n := range m.mods {
-				s.mods.add(n)
+				s.mods.addRoot(n, 1) // library models write only through their receiver (parameter 0)
 			}
 			return s
 		}
@@ -381,7 +400,7 @@ func (e *Engine) directSummary(fn *ssa.Function) *fnSummary {
 	}
 	if m := lookupModel(fn); m != nil {
 		for _, n := range m.mods {
-			s.mods.add(n)
+			s.mods.addRoot(n, 1)
 		}
 		return s
 	}
